@@ -2,7 +2,7 @@
    evaluated on the generated corpus on every run), and the shape of the trees it builds there (`gshape`).
    Clean = names that need no escaping: the TypeScript name of every definition and parameter is declarable,
    property names / variant names / tag keys (after renaming) contain no quote, backslash or line break and
-   property names are not empty; no `type = ".."` override (user text) and no `flatten`.  Everything else
+   property names are not empty; `export_to` paths likewise; no `type = ".."` override (user text) and no `flatten`.  Everything else
    is free: shapes, generics, defaults, `as`, `inline`, `optional`, all four enum representations, `skip`,
    `untagged` variants, documentation of any content.  Definitions only. *)
 From TsRs Require Import Base.Str Base.Outcome Model.Case Model.TsAst Model.Rust Model.Gen Spec.TsGrammar Spec.TsSyn.
@@ -70,7 +70,8 @@ Definition param_cleanb (p : str * option rty) : bool :=
 
 Definition def_cleanb (d : typedef) : bool :=
   let a := attrs_of d in
-  no_text (c_type a) && decl_nameb is_alnum is_numeric (ts_ident d) && cleanb (ts_ident d) && forallb param_cleanb (c_params a) &&
+  no_text (c_type a) && decl_nameb is_alnum is_numeric (ts_ident d) && cleanb (ts_ident d) &&
+  match c_export_to a with Some s => cleanb s | None => true end && forallb param_cleanb (c_params a) &&
   match c_as a with
   | Some u => rty_clean u
   | None =>
